@@ -18,13 +18,21 @@ PlansMix == PlansMeta2 \cup PlansRoute \cup PlansRouteMeta
 PlansCallers == PlansMeta2 \cup PlansMeta3
 PlansRouteAll == PlansRoute \cup PlansRouteMeta
 
-\* reachability (vacuity guard): TLC must VIOLATE each of these
-Never_hit == \A x \in DOMAIN S.g : ~(S.g[x].pc = "done" /\ S.g[x].res.t = "ok" /\ ~S.g[x].own)
-Never_torn == \A k \in Keyspaces : S.cache[k].ks = S.cache[k].tb
-Never_notexist == \A x \in DOMAIN S.g : S.g[x].res.t # "notexist"
-Never_policy == S.g[Pol].pc # "done"
-Never_route_key2 == \A i \in 1 .. Len(S.rfl) : Len(S.rfl[i].val) < 2
-Never_route_nil == \A x \in ActorsOf(S.plan) : S.a[x].out.t # "nil"
-Never_route_evict == \A s \in Stmts : S.nrrem[s] = 0
-Never_route_join == \A x \in ActorsOf(S.plan) : S.a[x].pc # "r_wait"
+\* reachability (vacuity guard): every situation below has to be met by the model passes.  Each worker prints a
+\* situation the first time it meets it (TLC registers), the check collects the REACHED lines.
+ASSUME \A i \in 1 .. 12 : TLCSet(i, 0)
+Mark(i, c, name) == (c /\ TLCGet(i) = 0) => (PrintT(<<"REACHED", name>>) /\ TLCSet(i, 1))
+ReachMarks ==
+  /\ Mark(1, \E x \in DOMAIN S.g : S.g[x].pc = "done" /\ S.g[x].res.t = "ok" /\ ~S.g[x].own, "hit")
+  /\ Mark(2, \E k \in Keyspaces : S.cache[k].ks # S.cache[k].tb, "torn")
+  /\ Mark(3, \E x \in DOMAIN S.g : S.g[x].res.t = "notexist" /\ S.g[x].abs, "notexist")
+  /\ Mark(4, S.g[Pol].pc = "done", "policy")
+  /\ Mark(5, S.epc = "clear" /\ S.mu # "", "clear_waits")
+  /\ Mark(6, \E x \in DOMAIN S.g : S.g[x].pc = "done" /\ S.g[x].res.t = "err", "fetch_failed")
+  /\ Mark(7, \E i \in 1 .. Len(S.rfl) : Len(S.rfl[i].val) = 2, "route_key2")
+  /\ Mark(8, \E x \in ActorsOf(S.plan) : S.a[x].out.t = "nil", "route_nil")
+  /\ Mark(9, \E s \in Stmts : S.nrrem[s] > 0, "route_removed")
+  /\ Mark(10, \E x \in ActorsOf(S.plan) : S.a[x].pc = "r_wait", "route_join")
+  /\ Mark(11, \E i \in 1 .. Len(S.rfl) : S.rfl[i].st = "fail", "route_failed")
+  /\ Mark(12, \E i \in 1 .. Len(S.rfl) : S.rfl[i].st = "run" /\ (S.rfl[i].s \notin DOMAIN S.rent \/ S.rent[S.rfl[i].s] # i), "route_evicted_inflight")
 =============================================================================
